@@ -201,6 +201,10 @@ def run(report, tier, seed):
                       detail=o.get('detail'), meta={'line': o['line']}))
     from contracts.py import relational_spec
     try:
+        for m_ in relational_spec.DELEG:
+            f_ = 'modeling.py:variable.' + m_
+            if f_ not in report.functions:
+                report.functions.append(f_)
         for o in relational_spec.obligations():
             if o['kind'] == 'relation-direction':
                 continue            # C12's
@@ -271,14 +275,18 @@ def run(report, tier, seed):
         'coefficient and of the new term; the postcondition is the '
         'entry-wise value identity of the effective coefficients.')
     report.not_decided += [
-        'every other operation of the expression algebra: _function '
-        'arithmetic and '
-        'curvature bookkeeping (_cvxterms / _ccvterms), _mul / _rmul, '
-        'indexing of a variable (one line: (+self)[key]), max / min / abs / '
-        'dot, the '
-        'binary (not in-place) forms, value() itself',
+        'the matrix arithmetic behind the value of a part: _lin.value(), '
+        '_minmax.value(), _sum_minmax.value() (and _vecmax / _vecmin, the '
+        'constant folding inside max / min)',
+        'multiplication of a function by a matrix with more than one entry '
+        '(_lin._mul / _rmul), the operators of _lin (they go through '
+        '_addterm, which is under contract), abs (max(f, -f): battery only)',
+        'slices in _keytolist (slice.indices / range: library semantics)',
         'that the callers of _addterm (_lin.__add__, __iadd__, ...) pass a '
-        'copy where required']
+        'copy where required (battery only)',
+        'the mathematical content behind the structural contracts: that the '
+        'documented forms are the right ones is taken from the '
+        'documentation, not proved']
     report.assumptions += [
         'the matrix model of contracts/py/lin_spec.py: cvxopt +, unary +, '
         'x[k*[0], :], x[0], extended slices with their documented meaning; '
